@@ -80,6 +80,14 @@ class WeightModel:
             if q:
                 calls.append((fn, q))
                 continue
+            if m[0] == "call" and (m[1].endswith("cmp::Ord::min") or m[1].endswith("cmp::min")) and depth < 3:
+                # min(x, _) <= x: an under-estimate of the available space is safe evidence
+                subs = [self.avail_ok(fn, a, W, depth + 1) for a in m[2]]
+                good = [x for x in subs if x is not None]
+                if good:
+                    calls += good[0]
+                    continue
+                return None
             if m[0] == "param" and depth < 3:
                 cs = self.callers(fn.name)
                 if not cs:
